@@ -57,16 +57,19 @@ class NetworkxGraph(AbstractGraph):
         """Constructs a graph from all modules and their imports."""
         self._add_all_modules_as_nodes()
 
+        # an import only becomes an edge if both of its ends are nodes: all nodes have to exist before the first import
+        # is looked at, otherwise the order in which the imports were found would decide which edges are created
+        for imp in self._imports:
+            self._add_edges_within_module_hierarchy(
+                imp.importer_parent_modules(),
+                imp.importer(),
+            )
+
         for imp in self._imports:
             importer = imp.importer()
             importee = imp.importee()
 
             self._create_edge(importer, importee)
-
-            self._add_edges_within_module_hierarchy(
-                imp.importer_parent_modules(),
-                importer,
-            )
 
             all_importee_modules = imp.importee_parent_modules() + [importee]
 
